@@ -450,13 +450,26 @@ func (x *Exec) prepass() {
 			}
 		}
 	}
+	goLits := map[*ast.FuncLit]bool{}
+	ast.Inspect(x.fi.Body, func(nd ast.Node) bool {
+		if gs, ok := nd.(*ast.GoStmt); ok {
+			if fl, ok := gs.Call.Fun.(*ast.FuncLit); ok && len(gs.Call.Args) == 0 {
+				goLits[fl] = true
+			}
+		}
+		return true
+	})
 	var visit func(n ast.Node) bool
 	visit = func(n ast.Node) bool {
 		if n == nil {
 			return true
 		}
 		if fl, ok := n.(*ast.FuncLit); ok && fl != x.fi.Lit {
-			return false
+			// spawns mode: the calls made by a parameterless closure started with `go func() {…}()` are anchorable, so
+			// that arg(i) points can pin what the worker is started with (the closure body itself is not executed)
+			if !(x.con != nil && x.con.Spawns && goLits[fl]) {
+				return false
+			}
 		}
 		bump := func(kind string) {
 			counts[kind]++
@@ -545,7 +558,9 @@ func (x *Exec) prepass() {
 					return false
 				}
 				if fl, ok := m.(*ast.FuncLit); ok && fl != x.fi.Lit {
-					return false
+					if !(x.con != nil && x.con.Spawns && goLits[fl]) {
+						return false
+					}
 				}
 				visit(m)
 				if ce, ok := m.(*ast.CallExpr); ok {
@@ -1111,6 +1126,8 @@ func (x *Exec) famState(st *State, es string, elem types.Type) {
 	x.famElem[es] = elem
 	st.gh["famarr:"+es] = Val{T: x.c.freshConst("famarr0", "(Array Int (Array Int "+es+"))")}
 	st.gh["famn:"+es] = Val{T: "((as const (Array Int Int)) 0)"}
+	st.gh["famenv:"+es] = Val{T: x.c.freshConst("famenv", "(Array Int (Array Int "+es+"))")}
+	st.gh["famrecvn:"+es] = Val{T: "((as const (Array Int Int)) 0)"}
 }
 
 // famView is sent(h) for a family channel: the per-handle slice of the family logs.
@@ -1120,6 +1137,32 @@ func (x *Exec) famView(st *State, es string, elem types.Type, h string) (Val, bo
 		return Val{}, false
 	}
 	return Val{Seq: &SeqVal{Arr: app("select", arrs.T, h), N: app("select", st.gh["famn:"+es].T, h), Elem: elem, ESort: es}}, true
+}
+
+// recvFrom (spawns mode): `<-ch` on a channel of the family this call made. The values arriving on such a channel are an
+// environment stream famenv[h] fixed for the whole call (what the goroutines send is not this function's business; what
+// it may rely on is stated as `assume` points); the k-th receive on h yields famenv[h][k]. A receive never blocks and
+// the channel is never closed in this model.
+func (x *Exec) recvFrom(ch Val, st *State, node ast.Node) Val {
+	u, ok := ch.Ty.Underlying().(*types.Chan)
+	if !ok {
+		panic(unsupported("receive from a non-channel"))
+	}
+	es := x.c.sortOf(u.Elem())
+	env, ok := st.gh["famenv:"+es]
+	if !ok || x.con == nil || !x.con.Spawns {
+		panic(unsupported("channel receive outside a range loop (only channels made by a spawns-mode function)"))
+	}
+	if _, param := st.gh["recv:"+ch.T]; param {
+		panic(unsupported("receive expression on a channel parameter"))
+	}
+	x.safety("famrecv", node, st, app("<=", x.alloc0, ch.T), "receive through a channel expression: the channel is one this call made")
+	ns := st.gh["famrecvn:"+es].T
+	cnt := app("select", ns, ch.T)
+	v := Val{T: x.c.define("rcv", es, app("select", app("select", env.T, ch.T), cnt)), Ty: u.Elem()}
+	st.gh["famrecvn:"+es] = Val{T: x.c.define("famrecvn", "(Array Int Int)", app("store", ns, ch.T, add(cnt, "1")))}
+	x.assumeWF(st, v)
+	return v
 }
 
 func (x *Exec) execSend(n *ast.SendStmt, st *State, env *Env) {
